@@ -243,7 +243,18 @@ def py_binop(op, a, b):
     if isinstance(b, IByteArray):
         b = b.value
     if (isinstance(a, IStub) and a.kind == "opaque") or (isinstance(b, IStub) and b.kind == "opaque"):
-        return IStub("opaque-result", "opaque")     # datetime arithmetic etc.: framed out, value never inspected
+        # datetime arithmetic: only the epoch + timedelta(microseconds) shape of get_plc_time; the value is framed out,
+        # the OverflowError for results outside year 1..9999 is modelled
+        for x in (a, b):
+            us = getattr(x, "us", None)
+            if us is not None:
+                lo, hi = -62135596800000000, 253402300799999999
+                if is_sym(us):
+                    if not ctx().branch(z3.And(T(us) >= lo, T(us) <= hi)):
+                        raise OverflowError("date value out of range")
+                elif not (lo <= us <= hi):
+                    raise OverflowError("date value out of range")
+        return IStub("opaque-result", "opaque")
     if not is_sym(a) and not is_sym(b):
         if isinstance(a, (list, tuple)) and isinstance(b, (list, tuple)) and op == "+":
             return a + b
